@@ -113,3 +113,19 @@ func (r *Ref) Child(path string) (*Ref, error) {
 	}
 	return NewRef(r.address, utils.JoinPath(r.path, path))
 }
+
+// asRef 将任意 ActorRef 实现转换为 *Ref：经由网络还原的引用（例如 OnKilled.Ref、OnKill.Killer）并非 *Ref，
+// 以其 address 与 path 重建；无法重建时返回 nil（由兜底邮箱作为无法投递的消息处理）。
+func asRef(ref vivid.ActorRef) *Ref {
+	if r, ok := ref.(*Ref); ok {
+		return r
+	}
+	if ref == nil {
+		return nil
+	}
+	r, err := NewRef(ref.GetAddress(), ref.GetPath())
+	if err != nil {
+		return nil
+	}
+	return r
+}
